@@ -39,7 +39,7 @@ fn emit(args: &Args) {
                 continue;
             }
         }
-        let with_variants = matches!(g.family.as_str(), "rec" | "getter" | "random") || ["core_ops", "core_ws", "core_both", "core_kinds", "core_pred", "core_json", "stack_basic", "stack_nested", "repo_csv"].contains(&g.id.as_str());
+        let with_variants = matches!(g.family.as_str(), "rec" | "getter" | "random") || ["core_ops", "core_ws", "core_both", "core_kinds", "core_pred", "core_json", "core_empty", "core_wsplus", "core_commentplus", "stack_basic", "stack_nested", "repo_csv"].contains(&g.id.as_str());
         let with_walker = g.family != "kinds" && g.family != "slice";
         match emit::grammar_module(g, with_variants, with_walker) {
             Ok(m) => mods.push((g.id.clone(), m.text, m.rules * if with_variants { 5 } else { 1 }, g.family.clone())),
@@ -53,12 +53,14 @@ fn emit(args: &Args) {
     for m in &mods {
         *fam_weight.entry(m.3.clone()).or_default() += m.2.max(1);
     }
-    let total: usize = fam_weight.values().sum::<usize>().max(1);
+    let _ = shards;
     let mut bins: Vec<(usize, Vec<usize>)> = Vec::new();
     let mut bin_family: Vec<String> = Vec::new();
     for (fam, w) in &fam_weight {
         let count = mods.iter().filter(|m| &m.3 == fam).count();
-        let k = ((*w * shards + total - 1) / total).max(1).min(count.max(1));
+        // a fixed target weight per shard keeps the shard layout of a family independent of which
+        // other families are present (quick vs thorough), so switching tiers does not force rebuilds
+        let k = ((*w + 149) / 150).max(1).min(count.max(1));
         let first = bins.len();
         for _ in 0..k {
             bins.push((0, Vec::new()));
@@ -82,21 +84,20 @@ fn emit(args: &Args) {
         let texts: Vec<String> = idxs.iter().map(|i| mods[*i].1.clone()).collect();
         let ids: Vec<String> = idxs.iter().map(|i| mods[*i].0.clone()).collect();
         let src = emit::shard_bin(&texts, &ids);
-        let name = format!("shard_{:02}", k);
+        let first_of_family = bin_family.iter().position(|f| *f == bin_family[k]).unwrap();
+        let name = format!("s_{}_{}", bin_family[k], k - first_of_family);
         if write_if_changed(&bin_dir.join(format!("{}.rs", name)), &src) {
             changed += 1;
         }
         listing.push(json!({"bin": name, "weight": w, "grammars": ids, "family": bin_family[k]}));
     }
     // remove stale shard files
+    let live: Vec<String> = listing.iter().map(|l| format!("{}.rs", l["bin"].as_str().unwrap())).collect();
     if let Ok(rd) = std::fs::read_dir(&bin_dir) {
         for e in rd.flatten() {
             let n = e.file_name().to_string_lossy().to_string();
-            if n.starts_with("shard_") && n.ends_with(".rs") {
-                let k: usize = n[6..8].parse().unwrap_or(999);
-                if k >= shards {
-                    let _ = std::fs::remove_file(e.path());
-                }
+            if (n.starts_with("shard_") || n.starts_with("s_")) && n.ends_with(".rs") && !live.contains(&n) {
+                let _ = std::fs::remove_file(e.path());
             }
         }
     }
